@@ -128,8 +128,17 @@ func cmdElectRun(args []string) int {
 						ev["rec"] = string(bs)
 					}
 					rec.Log(ev)
-				case "LCreate", "LUpdate":
-					ler := resourcelock.LeaderElectionRecord{HolderIdentity: s.C, LeaseDurationSeconds: 8, LeaderTransitions: s.N,
+				case "LCreate", "LUpdate", "LRelease":
+					holder := s.C
+					if s.E == "LRelease" {
+						holder = "" // client-go's release: an update that clears the holder
+					}
+					if s.E == "LRelease" {
+						// records carry wall-clock times in production, so no two are byte-equal; keep releases of
+						// different candidates distinct here as well
+						s.N = s.N*100 + int(s.C[0]-'a') + 1
+					}
+					ler := resourcelock.LeaderElectionRecord{HolderIdentity: holder, LeaseDurationSeconds: 8, LeaderTransitions: s.N,
 						AcquireTime: metav1.NewTime(time.Unix(int64(1000+s.N), 0).UTC()), RenewTime: metav1.NewTime(time.Unix(int64(2000+s.N), 0).UTC())}
 					bs, _ := json.Marshal(ler)
 					cur = readRec()
@@ -139,7 +148,11 @@ func cmdElectRun(args []string) int {
 					} else {
 						err = lk.Update(ler)
 					}
-					rec.Log(gate.Event{"e": s.E, "c": s.C, "ok": err == nil, "rec": string(bs), "prev": cur})
+					en2 := s.E
+					if en2 == "LRelease" {
+						en2 = "LUpdate" // judged like every other update: only if the record is what this candidate last read
+					}
+					rec.Log(gate.Event{"e": en2, "c": s.C, "ok": err == nil, "rec": string(bs), "prev": cur, "release": s.E == "LRelease"})
 					if (err == nil) != s.Ok {
 						mismatch = true
 					}
